@@ -39,6 +39,8 @@ Step ==
     /\ aux' = IF E.op = "newaux" THEN Append(aux, <<A(1), E.auxval>>) ELSE aux     \* created once, never changed by any call
     /\ CASE E.op = "new" -> IF heap[A(1)] = C!NoObj THEN C!New(A(1)) ELSE Skip
          [] E.op = "add" -> IF A(1) \in C!Live THEN C!Add(A(1), A(2), A(3), A(4), A(5)) ELSE Skip
+         [] E.op \in {"add_timeline", "add_annotation"} ->
+              IF A(1) \in C!Live THEN C!AddMany(E.op, A(1), A(2), ToSet(E.items)) ELSE Skip
          [] E.op = "add_annotator" -> IF A(1) \in C!Live THEN C!AddAnnotator(A(1), A(2)) ELSE Skip
          [] E.op = "remove" -> IF A(1) \in C!Live THEN C!Remove(A(1), A(2), A(3), A(4), A(5)) ELSE Skip
          [] E.op = "copy" ->
